@@ -168,6 +168,21 @@ def main(d, tier):
     if ok and not (np.array_equal(st['a'], np.arange(n, dtype=np.float32)) and
                    np.array_equal(st['b']['c'], np.stack([np.arange(2) + i for i in range(n)]))):
       V(f'stack_forest|n={n}', 'stack_forest is not a leafwise stack', n=n)
+    # a reshape keeps every value and its dtype: 64-bit host leaves (step counters beyond
+    # 2**31, float64 timestamps), bools and Python scalars included
+    wide = [{'step': np.int64(3_000_000_000 + i), 't': np.float64(0.1) + i, 'ok': np.bool_(i % 2),
+             'py': (float(i) + 0.1, 2 ** 40 + i), 'h': np.arange(3, dtype=np.float16) + i,
+             'u': np.array([[i, 255]], np.uint8)} for i in range(n)]
+    ok, sw = guarded('stack_forest', lambda: common_utils.stack_forest(wide), n=n)
+    if ok:
+      expw = jax.tree.map(lambda *xs: np.stack(xs), *wide)
+      for (pth, a), b in zip(jax.tree_util.tree_leaves_with_path(sw), jax.tree.leaves(expw)):
+        a_ = np.asarray(a)
+        if a_.dtype != b.dtype or a_.shape != b.shape or not np.array_equal(a_, b):
+          V(f'stack_forest-wide|n={n}|{jax.tree_util.keystr(pth)}',
+            f'stack_forest changed a leaf: got {a_.dtype}{list(a_.shape)} {a_.tolist()}, '
+            f'np.stack gives {b.dtype}{list(b.shape)} {b.tolist()}', n=n)
+      res['nontrivial'].append(core.h(['stack_forest-wide', n]))
     ms_ = [jax.tree.map(lambda x: np.stack([x] * d), f) for f in forest]
     ok, gm = guarded('get_metrics', lambda: common_utils.get_metrics(ms_), n=n, d=d)
     if ok and not np.array_equal(gm['a'], np.arange(n, dtype=np.float32)):
